@@ -89,8 +89,8 @@ func search(sc *scope, shard, n int, deadline time.Time) *result {
 					}
 					continue
 				}
-				// a few written-out cases: the first non-trivial case of the first lists of this shard
-				if len(res.Samples) < 2 && c.nAsg >= 8 && ri%7 == 3 {
+				// a few written-out cases, taken at different depths of the list enumeration
+				if len(res.Samples) < 2 && c.nAsg >= 8 && ri%7 == 3 && idx >= int64(shard%4)*(sc.total/4) {
 					res.Samples = append(res.Samples, c.input()+"  =>  "+describeFit(c.ret)+fmt.Sprintf("  (satisfied=%v; %d valid assignments compared)", c.ret.IsSatisfied(), c.nAsg))
 				}
 			}
@@ -269,9 +269,12 @@ func main() {
 			for _, v := range r.Viol {
 				rep.Report(&evidence.Violation{Scenario: sc.Name, Key: v.Key, Message: v.Msg, Replay: v.Replay})
 			}
-			if sh < 2 {
-				for _, s := range r.Samples {
-					if len(cov.Samples) < 8 {
+			if sh == 1 || sh == 3 {
+				for si, s := range r.Samples {
+					if si > 0 {
+						break
+					}
+					if len(cov.Samples) < 12 {
 						cov.Samples = append(cov.Samples, map[string]interface{}{"scope": sc.Name, "case": s})
 					}
 				}
